@@ -668,11 +668,13 @@ impl Gen {
     let id = w.id;
     let info = w.frag.entry(sn).or_insert_with(|| {
       let nfr = 2 + (c % 4) as usize; // 2..5 fragments
-      let last = 1 + (c as usize * 3) % fs as usize; // length of the last fragment
+      // length of the last fragment; sample sizes are multiples of 4 so that re-encoding the
+      // deserialized value (C01 driver) gives back exactly the bytes
+      let last = 4 * (1 + (c as usize * 3) % (fs as usize / 4));
       let total = (nfr - 1) * fs as usize + last;
       let mut body = payload_for(id, sn, 0);
       body.truncate(8);
-      let n = total.max(9) - 8;
+      let n = total.max(12) - 8;
       body[4..8].copy_from_slice(&(n as u32).to_le_bytes());
       body.extend((0..n).map(|i| (sn as u64).wrapping_mul(11).wrapping_add(i as u64) as u8));
       FragInfo { fs, body }
